@@ -110,7 +110,7 @@ impl Check for FormatCheck {
         "fault_enumeration"
     }
     fn rule(&self) -> String {
-        "one run = one of: (1) Sample::serialize/parse identity on arbitrary bit patterns of u8/u32/i32/f32/Complex; (2) FileSink -> file -> FileSource round trip of 0..3*capacity+r samples (streams of 4-8 KiB; one run in 40 a default-size stream with more than 1 MiB in one window) with seeded short-write and short-read plans injected at the write()/read() symbols (1-byte, sample-1, sample+1, random, large) and seeded drip schedules on both sides; (3) SigMFSource from a recording and from a tar archive (seeded member order, unrelated members) under short reads; (4) AuEncode -> bytes -> AuDecode under chunked delivery, compared with the PCM16 quantisation; (5) TcpSource over a loopback connection whose recv() results are cut to a seeded segmentation (MSG_WAITALL makes each cut exact), incl. 1-byte reads and cuts inside a sample. \
+        "one run = one of: (1) Sample::serialize/parse identity on arbitrary bit patterns of u8/u32/i32/f32/Complex; (2) FileSink -> file -> FileSource round trip of 0..3*capacity+r samples (streams of 4-8 KiB; one run in 40 a default-size stream with more than 1 MiB in one window) with seeded short-write and short-read plans injected at the write()/read() symbols (1-byte, sample-1, sample+1, random, large) and seeded drip schedules on both sides; (3) SigMFSource<Complex|Float|i32|u8> from a recording and from a tar archive (seeded member order, unrelated members, member paths up to 135 bytes, with and without a stated sample rate) under short reads; (4) AuEncode -> bytes -> AuDecode under chunked delivery, compared with the PCM16 quantisation; (5) TcpSource over a loopback connection whose recv() results are cut to a seeded segmentation (MSG_WAITALL makes each cut exact), incl. 1-byte reads and cuts inside a sample. \
          Oracle: byte/sample identity with what was written, exact counts. non-trivial = at least one read or write was cut short, or a split fell inside a sample; distinct = hash of the decision list".into()
     }
     fn assumptions(&self) -> Vec<String> {
@@ -353,7 +353,10 @@ fn sigmf_leg(src: &mut Src, ctx: &mut RunCtx, solo: &Arc<Solo>) -> RunResult {
     ctx.count("sigmf_leg");
     let archive = src.coin();
     let small = *src.pick(&[4096usize, 8192]);
-    let cap = small / 8;
+    // Sample type of the recording: every type the source supports.
+    let kind = *src.pick(&[0usize, 0, 1, 2, 3]);
+    let (dt, esz) = [("cf32_le", 8usize), ("rf32_le", 4), ("ri32_le", 4), ("ru8_le", 1)][kind];
+    let cap = small / esz;
     let n = match src.below(5) {
         0 => 0,
         1 => 1,
@@ -361,16 +364,19 @@ fn sigmf_leg(src: &mut Src, ctx: &mut RunCtx, solo: &Arc<Solo>) -> RunResult {
         3 => 3 * cap + src.below(9),
         _ => src.range(1, 2 * cap),
     };
-    let raw: Vec<u8> = (0..n * 8).map(|_| src.below(256) as u8).collect();
-    let rchunks = gen_chunks(src, 8);
+    let raw: Vec<u8> = (0..n * esz).map(|_| src.below(256) as u8).collect();
+    let rchunks = gen_chunks(src, esz);
+    // The caller may state the sample rate it expects; the one in the metadata
+    // (48000) must then be accepted.
+    let expect_rate = src.chance(1, 3);
     let dir = tempfile::tempdir().map_err(|e| Violation::new("HARNESS-PANIC tempdir", e.to_string()))?;
     let path = dir.path().join("capture.sigmf");
     if archive {
-        let t = sigmf_archive(src, &sigmf_meta("cf32_le"), &raw);
+        let t = sigmf_archive(src, &sigmf_meta(dt), &raw);
         std::fs::write(&path, t).map_err(|e| Violation::new("HARNESS-PANIC write", e.to_string()))?;
     } else {
         // Half the recordings get their metadata from the crate's own writer.
-        if src.coin() {
+        if kind == 0 && src.coin() {
             ctx.count("sigmf_meta_by_own_writer");
             match catch(|| rustradio::sigmf::write(dir.path().join("capture.sigmf-meta"), 48000.0, 144_800_000.0)) {
                 Ok(Ok(())) => {}
@@ -378,40 +384,57 @@ fn sigmf_leg(src: &mut Src, ctx: &mut RunCtx, solo: &Arc<Solo>) -> RunResult {
                 Err(p) => return Err(Violation::new("C14:sigmf-write-panicked", format!("sigmf::write panicked: {} at {}", p.msg, p.loc))),
             }
         } else {
-            std::fs::write(dir.path().join("capture.sigmf-meta"), sigmf_meta("cf32_le")).map_err(|e| Violation::new("HARNESS-PANIC write", e.to_string()))?;
+            std::fs::write(dir.path().join("capture.sigmf-meta"), sigmf_meta(dt)).map_err(|e| Violation::new("HARNESS-PANIC write", e.to_string()))?;
         }
         std::fs::write(dir.path().join("capture.sigmf-data"), &raw).map_err(|e| Violation::new("HARNESS-PANIC write", e.to_string()))?;
     }
-    ctx.ev(|| format!("C14 sigmf leg archive {archive} n {n} read_chunks {rchunks:?}"));
+    ctx.ev(|| format!("C14 sigmf leg archive {archive} type {dt} n {n} read_chunks {rchunks:?} expect_rate {expect_rate}"));
+    ctx.count(["sigmf_cf32", "sigmf_rf32", "sigmf_ri32", "sigmf_ru8"][kind]);
     if ctx.sample.is_none() {
         ctx.sample = Some(json!({"leg": if archive {"SigMF archive"} else {"SigMF recording"}, "samples": n, "read_chunks": rchunks}));
     }
-    let res = solo.with(|| -> Result<Vec<u8>, String> {
-        rustradio::verif::set_stream_size(small);
-        sys::arm(IoPlan { read_chunks: rchunks.clone(), ..Default::default() }, 8);
-        let built = catch(|| SigMFSourceBuilder::<Complex>::new(path.clone()).build());
-        let (b, o) = match built {
-            Ok(Ok(x)) => x,
-            Ok(Err(e)) => return Err(format!("constructor failed on a valid {}: {e}", if archive { "archive" } else { "recording" })),
-            Err(p) => return Err(format!("constructor panicked: {} at {}", p.msg, p.loc)),
+    macro_rules! read_as {
+        ($t:ty) => {
+            solo.with(|| -> Result<Vec<u8>, String> {
+                rustradio::verif::set_stream_size(small);
+                sys::arm(IoPlan { read_chunks: rchunks.clone(), ..Default::default() }, esz);
+                let built = catch(|| {
+                        let mut bld = SigMFSourceBuilder::<$t>::new(path.clone());
+                        if expect_rate {
+                            bld = bld.sample_rate(48000.0);
+                        }
+                        bld.build()
+                    });
+                let (b, o) = match built {
+                    Ok(Ok(x)) => x,
+                    Ok(Err(e)) => return Err(format!("constructor failed on a valid {}: {e}", if archive { "archive" } else { "recording" })),
+                    Err(p) => return Err(format!("constructor panicked: {} at {}", p.msg, p.loc)),
+                };
+                let mut c = Case::new("SigMFSource", String::new(), Box::new(b));
+                c.outs = vec![StreamOut::new(o)];
+                c.outs[0].preroll(src.below(c.outs[0].capacity()));
+                let r = drive_source(&mut c, solo, src, n);
+                let st = sys::disarm();
+                ctx.add("fault:short_read", st.short_reads as u64);
+                ctx.add("short_read_inside_sample", st.reads_inside_sample as u64);
+                if st.short_reads > 0 {
+                    ctx.nontrivial = true;
+                }
+                r?;
+                let mut out = Vec::new();
+                for s in &c.out_typed::<$t>(0).got {
+                    out.extend(s.serialize());
+                }
+                Ok(out)
+            })
         };
-        let mut c = Case::new("SigMFSource", String::new(), Box::new(b));
-        c.outs = vec![StreamOut::new(o)];
-        c.outs[0].preroll(src.below(c.outs[0].capacity()));
-        let r = drive_source(&mut c, solo, src, n);
-        let st = sys::disarm();
-        ctx.add("fault:short_read", st.short_reads as u64);
-        ctx.add("short_read_inside_sample", st.reads_inside_sample as u64);
-        if st.short_reads > 0 {
-            ctx.nontrivial = true;
-        }
-        r?;
-        let mut out = Vec::new();
-        for s in &c.out_typed::<Complex>(0).got {
-            out.extend(s.serialize());
-        }
-        Ok(out)
-    });
+    }
+    let res = match kind {
+        0 => read_as!(Complex),
+        1 => read_as!(f32),
+        2 => read_as!(i32),
+        _ => read_as!(u8),
+    };
     rustradio::verif::set_stream_size(0);
     match res {
         Err(e) => Err(Violation::new("C14:sigmf-failed", format!("archive={archive}, {n} samples, read chunks {rchunks:?}: {e}"))),
